@@ -155,6 +155,8 @@ def menu(M, seen):
         add({"op": "select", "cols": list(reversed(names))})
         add({"op": "select", "cols": [names[0]]})
         add({"op": "unselect", "cols": [names[0]]})
+        if k >= 2:
+            add({"op": "unselect", "cols": [names[-1]]})  # a single name that may contain another column's name
         add({"op": "rename", "map": {fresh(M, "n1"): names[0]}})
         if k >= 2:
             add({"op": "rename", "map": {names[1]: names[0], names[0]: names[1]}})
